@@ -36,6 +36,8 @@ def run_simple(ctx, cases, prop, chk_filter=None, signature=None, relation=None,
         if verdicts is not None:
             for oi, op in enumerate(c.ops):
                 v = verdicts[ci][oi]
+                if impl[ci][oi] in ("panic", "hang", "missing"):
+                    v = "fails crash"      # no property allows the implementation to crash or hang
                 if verdict_filter is not None:
                     v = verdict_filter(v)
                 if v not in ("holds", "na", "skip") and bad_pred is None:
